@@ -1,12 +1,16 @@
 (* C04 — results do not depend on the storage order of dimensions.  Statements only.
    [same_arr x x'] : same dimensions as a set and equal entries under equal labels, i.e. x' is x
    stored in another order.  Proved here for the reductions (sum_to / sum_over, hence + - min max,
-   which reduce both operands first) and for products / quotients; slice reads, assignments, casts,
-   DataFrame round trips and stacking are carried by the exhaustive permutation correspondence
-   (every permutation of every participating array up to rank 3 / 4) — see DESIGN.md. *)
-From Coq Require Import List Arith Ring_theory Permutation.
+   which reduce both operands first), for products / quotients and for slice reads with dict keys; for
+   assignments from a FlodymArray the label-level theorem C05_dict_assignment_by_label says the same for the
+   source (its marginal by label does not depend on its storage order: C04_sum_to_independent_of_storage_order)
+   and cast_to is by label by C07_cast_replicates_by_label; DataFrame round trips, stacking / splitting and
+   lifetime parameters are carried by the exhaustive permutation correspondence (every permutation of every
+   participating array up to rank 3 / 4) — see DESIGN.md. *)
+From Coq Require Import List Arith Bool Ring_theory Permutation.
 Import ListNotations.
-From Flodym Require Import Base.ND Base.Env Np.Einsum Model.Dims Model.Array Proofs.ArrayLemmas Proofs.C04Proofs.
+From Flodym Require Import Base.ND Base.Env Np.Einsum Model.Dims Model.Array Model.SubArray Proofs.ArrayLemmas Proofs.C04Proofs
+  Proofs.HandlerProofs Proofs.GetitemSpec Proofs.GetitemCongr.
 
 Theorem C04_sum_to_independent_of_storage_order :
   forall (R : Type) (rO rI : R) (radd rmul rsub : R -> R -> R) (ropp : R -> R),
@@ -42,3 +46,16 @@ Theorem C04_entrywise_maps_commute_with_labels :
   den_nd R rO (aletters R y) (mk_nd (dshape (adims y)) (map g (avals y))) e = g (den R rO y e).
 Proof. exact den_map. Qed.
 Print Assumptions C04_entrywise_maps_commute_with_labels.
+
+(* slice reads with a dict key *)
+Theorem C04_slice_read_independent_of_storage_order :
+  forall (R : Type) (rO : R) (a a' r r' : farr R) kvs e,
+  wf R a -> wf R a' -> same_arr R rO a a' ->
+  wf_dict (adims a) no_asg kvs ->
+  existsb (fun p => match snd p with IList _ => true | _ => false end) kvs = false ->
+  no_lists (asg_of no_asg kvs) (adims a) ->
+  getitem R rO a (KDict kvs) = Ok r -> getitem R rO a' (KDict kvs) = Ok r' ->
+  (forall d, In d (adims r) -> lookup e (dletter d) < dlen d) ->
+  den R rO r e = den R rO r' e /\ Permutation (adims r) (adims r').
+Proof. exact getitem_congr. Qed.
+Print Assumptions C04_slice_read_independent_of_storage_order.
